@@ -779,14 +779,15 @@ class Epoch(object):
             raise ValueError("Invalid input data")
         day = int(dd)
         frac = dd % 1
-        if yyyy >= 1:  # datetime's minimum year is 1
+        if yyyy >= 1582:  # datetime follows the (proleptic) Gregorian calendar
             try:
                 d = datetime.date(yyyy, mm, day)
             except ValueError:
                 raise ValueError("Invalid input date")
             doy = d.timetuple().tm_yday
         else:
-            k = 2 if Epoch.is_leap(yyyy) else 1
+            # Julian calendar years: Meeus' formula, K = 1 for leap years
+            k = 1 if Epoch.is_leap(yyyy) else 2
             doy = (iint((275.0 * mm) / 9.0)
                    - k * iint((mm + 9.0) / 12.0) + day - 30.0)
         return float(doy + frac)
@@ -867,14 +868,12 @@ class Epoch(object):
         if isinstance(year, (int, float)) and isinstance(doy, (int, float)):
             frac = float(doy % 1)
             doy = int(doy)
-            if year >= 1:  # datetime's minimum year is 1
+            if year >= 1582:  # datetime follows the Gregorian calendar
                 ref = datetime.date(year, 1, 1)
                 mydate = datetime.date.fromordinal(ref.toordinal() + doy - 1)
                 return year, mydate.month, mydate.day + frac
             else:
-                # The algorithm provided by Meeus doesn't work for years below
-                # +1. This little hack solves that problem (the 'if' result is
-                # inverted here).
+                # Julian calendar years: Meeus' algorithm, K = 1 for leap years
                 k = 1 if Epoch.is_leap(year) else 2
                 if doy < 32:
                     m = 1
